@@ -285,10 +285,12 @@ def _atoms(test):
         yield test
 
 
-def _is_factory_param(module: Module, fn, name):
+def _is_factory_param(module: Module, fn, name, own=False):
     sc = module.scopes.get(fn)
     if sc is None:
         return False
+    if own and name in sc.params:
+        return True        # fn is itself an enclosing factory (atoms reached through an enclosing-scope constant)
     if name in sc.params or (name in sc.locals and name not in sc.nonlocals):
         return False
     cur = sc.parent
@@ -299,6 +301,28 @@ def _is_factory_param(module: Module, fn, name):
             return False
         cur = cur.parent
     return False
+
+
+def _enclosing_const(module: Module, fn, name):
+    """(value node, scope function) of a local of an enclosing function that is assigned exactly once at the top
+    level of that function; None otherwise."""
+    sc = module.scopes.get(fn)
+    if sc is None or name in sc.params or (name in sc.locals and name not in sc.nonlocals):
+        return None
+    cur = sc.parent
+    while cur is not None:
+        if name in cur.params:
+            return None
+        if name in cur.locals and name not in cur.nonlocals:
+            hits = [n for n in cur.node.body if isinstance(n, ast.Assign) and len(n.targets) == 1
+                    and isinstance(n.targets[0], ast.Name) and n.targets[0].id == name]
+            others = [n for n in ast.walk(cur.node) if isinstance(n, (ast.Assign, ast.AugAssign)) and n not in hits and any(
+                isinstance(x, ast.Name) and x.id == name and isinstance(x.ctx, ast.Store) for x in ast.walk(n))]
+            if len(hits) == 1 and not others and isinstance(hits[0].value, (ast.BoolOp, ast.Compare, ast.UnaryOp, ast.Name)):
+                return hits[0].value, cur.node
+            return None
+        cur = cur.parent
+    return None
 
 
 def config_space(program: Program, spec: HandlerSpec, extra_fns=()) -> Dict[str, List[str]]:
@@ -313,20 +337,36 @@ def config_space(program: Program, spec: HandlerSpec, extra_fns=()) -> Dict[str,
                 fns.append(d)
     fns += [f for f in extra_fns if f not in fns]
     dom: Dict[str, set] = {}
+
+    def expand(a, inner_fn, depth=0):
+        """Atoms of a test, looking through enclosing-scope constants such as
+        ``is_joined = zip is True or combine is True``."""
+        if isinstance(a, ast.Name) and depth < 4 and not _is_factory_param(module, inner_fn, a.id):
+            v = _enclosing_const(module, inner_fn, a.id)
+            if v is not None:
+                out = []
+                for b in _atoms(v[0]):
+                    out += expand(b, v[1], depth + 1)
+                return [(x, f_, True) for x, f_, _ in out]
+        return [(a, inner_fn, False)]
+
     for f in fns:
         encl_sub = module.scopes[f]
         for test in _test_nodes(f):
-            for a in _atoms(test):
-                inner_fn = module.enclosing_function(a) or f
+            atoms = []
+            for a0 in _atoms(test):
+                atoms += expand(a0, module.enclosing_function(a0) or f)
+            for a, inner_fn_, own_ in atoms:
+                inner_fn = inner_fn_
                 if isinstance(a, ast.Name):
-                    if _is_factory_param(module, inner_fn, a.id) and not _is_role(spec, module, inner_fn, a.id):
+                    if _is_factory_param(module, inner_fn, a.id, own_) and not _is_role(spec, module, inner_fn, a.id):
                         dom.setdefault(a.id, set()).add("truth")
                 elif isinstance(a, ast.Compare) and len(a.ops) == 1:
                     l, r = a.left, a.comparators[0]
                     for x, y in ((l, r), (r, l)):
                         if isinstance(x, ast.Name) and isinstance(y, ast.Constant) and \
                                 isinstance(a.ops[0], (ast.Is, ast.IsNot, ast.Eq, ast.NotEq)) and \
-                                _is_factory_param(module, inner_fn, x.id):
+                                _is_factory_param(module, inner_fn, x.id, own_):
                             if y.value is True or y.value is False:
                                 dom.setdefault(x.id, set()).add("bool")
                             elif y.value is None:
